@@ -492,5 +492,8 @@ func main() {
 		}
 	}
 	out.WriteString("def doBody : List Stmt := [\n  " + strings.Join(stmts, ",\n  ") + "]\n\nend F1.Generated\n")
+	// third generated file: the sequential cores translated to MiniGo
+	out.WriteString("-- ===FILE MiniGo.lean===\n")
+	out.WriteString(translateMiniGo(repo))
 	fmt.Print(out.String())
 }
